@@ -341,6 +341,37 @@ func readPayloadF(via string, side ws.State, g, n int, chunks []int, frags int) 
 	return out, err
 }
 
+// readFrames reads k frames of n bytes each with ws.ReadFrame from one source (buffered with the given
+// bufio size, 0 = not buffered), keeps the first frame and returns its payload after all were read.
+func readFrames(side ws.State, n int, chunks []int, bufsz, k int) ([]byte, error) {
+	var wire []byte
+	for g := 0; g < k; g++ {
+		f := ref.Frame{H: ref.Header{Fin: true, Op: ref.OpBinary, Masked: side.ServerSide(), Mask: [4]byte{byte(g), 9, 9, 1}}, Payload: []byte(word(g, 52, n))}
+		wire = append(wire, f.Encode()...)
+	}
+	var src io.Reader = tx.NewSrc(wire, chunks)
+	if bufsz > 0 {
+		src = bufio.NewReaderSize(src, bufsz)
+	}
+	var first ws.Frame
+	for g := 0; g < k; g++ {
+		f, err := ws.ReadFrame(src)
+		if err != nil {
+			return nil, fmt.Errorf("harness: ReadFrame %d: %v", g, err)
+		}
+		if f.Header.Masked {
+			f = ws.UnmaskFrameInPlace(f)
+		}
+		if string(f.Payload) != word(g, 52, n) {
+			return nil, fmt.Errorf("harness: frame %d read back wrong", g)
+		}
+		if g == 0 {
+			first = f
+		}
+	}
+	return first.Payload, nil
+}
+
 // readPartial makes ReadData return some bytes together with an error: a text message of n bytes whose
 // last byte is not UTF-8 (cut=false), or a binary message of which only n-1 bytes arrive (cut=true).
 func readPartial(side ws.State, g, n int, chunks []int, cut bool) ([]byte, error) {
@@ -428,7 +459,7 @@ func clientWrite(g, n int) {
 
 var resultKinds = []string{
 	"Upgrader/Protocol+Extension", "Upgrader/Negotiate:wsflate", "HTTPUpgrader/Protocol+Extension", "HTTPUpgrader/Negotiate:wsflate",
-	"Dialer", "ClosedError", "ReadMessage", "ReadData", "ReadMessage/fragmented", "ReadData/fragmented", "ReadMessage+HandleControlMessage", "ReadMessage/recycled-slice", "ReadData/partial-with-error",
+	"Dialer", "ClosedError", "ReadMessage", "ReadData", "ReadMessage/fragmented", "ReadData/fragmented", "ReadMessage+HandleControlMessage", "ReadMessage/recycled-slice", "ReadData/partial-with-error", "ReadFrame",
 }
 
 func TestResultsSurvivePoolReuse(t *testing.T) {
@@ -482,6 +513,15 @@ func TestResultsSurvivePoolReuse(t *testing.T) {
 			live = func() string { return string(p) }
 			if err == nil && string(p) != want {
 				t.Fatalf("the ping payload returned by ReadMessage was changed by HandleControlMessage answering it: %q, want %q (side %v)", p, want, side)
+			}
+		case "ReadFrame":
+			// ws.ReadFrame from a plain or a buffered source holding several frames: the payload of an earlier
+			// frame stays what it was while the later frames are read (a buffered source refills its buffer)
+			var p []byte
+			p, err = readFrames(side, size, chunks, rapid.SampledFrom([]int{0, 16, 4096}).Draw(t, "bufio"), rapid.IntRange(2, 12).Draw(t, "frames"))
+			live = func() string { return string(p) }
+			if err == nil && string(p) != word(0, 52, size) {
+				t.Fatalf("the payload of the first frame read by ws.ReadFrame changed while the following frames were read from the same source: %q…, want %q…", head(p), head([]byte(word(0, 52, size))))
 			}
 		case "ReadData/partial-with-error":
 			// the bytes ReadData hands back TOGETHER WITH an error (the valid prefix of a text message with a bad
